@@ -139,6 +139,15 @@ func c08Policies(a *refsem.Arch, tier string) []c08Job {
 				{Name: P[1], Conditions: seccomp.ArgumentConditions{c1}}, {Name: P[3], Conditions: seccomp.ArgumentConditions{c2}}, {Name: P[1], Conditions: seccomp.ArgumentConditions{c2}}}}}, false, uint32(n%2), n%4 < 2)
 			add("cond/interleaved", []seccomp.SyscallGroup{{Action: seccomp.ActionErrno, NamesWithCondtions: []seccomp.NameWithConditions{
 				{Name: P[1], Conditions: seccomp.ArgumentConditions{c1}}, {Name: P[3], Conditions: seccomp.ArgumentConditions{c2}}, {Name: P[4], Conditions: seccomp.ArgumentConditions{c1}}, {Name: P[1], Conditions: seccomp.ArgumentConditions{c2}}, {Name: P[3], Conditions: seccomp.ArgumentConditions{c1}}}}}, false, uint32(n%2), n%4 < 2)
+			// three conditions in one list (every subset of them can hold for a probe event: first and last without the middle one)
+			c3 := seccomp.Condition{Argument: uint32((oi + oj + 1) % 6), Operation: allOps[(oi+oj)%len(allOps)], Value: 7}
+			if c3.Argument == c1.Argument || c3.Argument == c2.Argument {
+				c3.Argument = (c3.Argument + 1) % 6
+				if c3.Argument == c1.Argument || c3.Argument == c2.Argument {
+					c3.Argument = (c3.Argument + 1) % 6
+				}
+			}
+			add("cond/and3", []seccomp.SyscallGroup{{Action: seccomp.ActionErrno, NamesWithCondtions: []seccomp.NameWithConditions{{Name: P[1], Conditions: seccomp.ArgumentConditions{c1, c2, c3}}}}}, false, uint32(n%2), n%4 < 2)
 			add("cond/two-groups+kill", []seccomp.SyscallGroup{
 				{Action: seccomp.ActionErrno, NamesWithCondtions: []seccomp.NameWithConditions{{Name: P[1], Conditions: seccomp.ArgumentConditions{c1}}}},
 				{Action: seccomp.ActionKillProcess, NamesWithCondtions: []seccomp.NameWithConditions{{Name: P[1], Conditions: seccomp.ArgumentConditions{c2}}}, Names: []string{P[4]}}}, n%5 == 0, uint32(n%2), n%4 < 2)
